@@ -105,7 +105,8 @@ GEN_DEFAULTS = {
     "QL": "128", "Peers": "GenPeers2", "NumPlayers": "2", "Window": "2", "Sparse": "FALSE",
     "PredDefault": "FALSE", "DesyncInterval": "0", "Fps": "60", "Timeout": "2000", "Notify": "500",
     "Values": "GenValues", "MaxFrame": "8", "LinkCap": "2", "DupBudget": "1", "ClockSteps": "NoClock",
-    "MaxClock": "1000000", "PreSynced": "TRUE", "InboxCap": "2", "VaryAll": "TRUE", "Granular": "TRUE",
+    "MaxClock": "1000000", "PreSynced": "TRUE", "InboxCap": "2", "EagerNet": "FALSE", "DelayValues": "{}", "VaryAll": "TRUE",
+    "Granular": "TRUE",
     "MaxSteps": "80",
 }
 GEN_SUBST = {"Peers", "Values", "ClockSteps"}
@@ -256,12 +257,19 @@ SYS_DEFAULTS.update({"QL": "8", "MaxFrame": "3", "LinkCap": "1", "DupBudget": "0
 del SYS_DEFAULTS["MaxSteps"]
 
 
-def mc_system(res, wd, name, over, workers=12, timeout=900, invariants=("NoViolation", "NoPanic")):
+def mc_system(res, wd, name, over, workers=12, timeout=900, invariants=("NoViolation", "NoPanic"),
+              overrides=None, expect_violation=False):
     """Exhaustive TLC run of System.tla with the given constants.  Returns (held, out)."""
     consts = dict(SYS_DEFAULTS)
     consts.update({k: str(v) for k, v in over.items()})
     cfgp = os.path.join(wd, "mc_%s.cfg" % name)
     write_cfg(cfgp, "Spec", consts, invariants=invariants, view="View")
+    if overrides:
+        with open(cfgp) as f:
+            txt = f.read()
+        txt = txt.replace("INVARIANTS", "".join("  %s <- %s\n" % kv for kv in overrides.items()) + "INVARIANTS", 1)
+        with open(cfgp, "w") as f:
+            f.write(txt)
     tracep = os.path.join(wd, "mc_%s_cex.json" % name)
     rc, out = core.tlc(os.path.join(core.SPEC, "MC_Sys.tla"), cfgp, os.path.join(wd, "md_mc_" + name),
                        workers=workers, timeout=timeout, xmx="10g", extra=["-dumpTrace", "json", tracep])
@@ -273,7 +281,12 @@ def mc_system(res, wd, name, over, workers=12, timeout=900, invariants=("NoViola
         raise core.ToolError("TLC did not complete MC_Sys/%s:\n%s" % (name, out[-2000:]))
     res.add_model("System/" + name, gen, dist, {"constants": {k: consts[k] for k in
                   ("Peers", "Window", "Sparse", "PredDefault", "MaxFrame", "LinkCap", "InboxCap", "DesyncInterval")},
-                  "violated": violated, "exhaustive": True})
+                  "violated": violated, "exhaustive": True, "overrides": overrides or {},
+                  "expected_violation": expect_violation})
+    if expect_violation:
+        if not violated:
+            raise core.ToolError("regression model run %s no longer finds its documented counterexample" % name)
+        return True, None
     if violated:
         return False, cex_schedule(tracep, consts)
     return True, None
